@@ -5,7 +5,7 @@
    parse_lines = parse_script after line splitting; llines = the logical lines (index of first physical line, text);
    pfold = the fold of pstep over them (Model/ScriptX.v, proved equal to ploop in Proofs/ScriptFacts.v). *)
 From BS Require Import Model.Base Model.Regex Model.ExprParser Model.Script Model.ScriptX Model.PErr
-  Proofs.ScriptFacts Proofs.PErrFacts Proofs.C06 Proofs.C06Cols.
+  Proofs.ScriptFacts Proofs.PErrFacts Proofs.C06 Proofs.C06Cols Proofs.C06Progress.
 
 (* ---- (1) accounting: an accepted text leaves nothing open and every logical line was folded exactly once ---- *)
 Theorem C06_accounts : forall chunks start s,
@@ -26,6 +26,20 @@ Theorem C06_loop_is_fold_of_logical_lines : forall lines ix ls ps start,
   fst (ploop_count lines ix ls ps start 0) = ploop lines ix ls ps start.
 Proof. intros. split; [apply ploop_factor | apply ploop_count_fst]. Qed.
 Print Assumptions C06_loop_is_fold_of_logical_lines.
+
+(* no logical line is dropped silently: every successful step adds weight to the model (1 per statement, 1 per include
+   url, 1 + body per function) except `endfunction`, which moves the already counted open function into the script *)
+Theorem C06_step_adds : forall ps n line ps',
+  pstep ps n line = ROk ps' ->
+  ps_weight ps < ps_weight ps' \/ (is_fnend line = true /\ ps_weight ps' = ps_weight ps /\ ps_fn ps <> None /\ ps_fn ps' = None).
+Proof. exact pstep_progress. Qed.
+Print Assumptions C06_step_adds.
+
+Theorem C06_no_dropped_line : forall chunks start s,
+  parse_script chunks start = ROk s ->
+  exists lines, split_chunks chunks = ROk lines /\ counted (fst (llines lines 0 ls_init)) <= stmts_weight s.
+Proof. exact parse_script_no_dropped_line. Qed.
+Print Assumptions C06_no_dropped_line.
 
 (* ---- (2) position: every error carries start + (index of a physical line), a column inside the line (or one past its
    end), and the line text is a logical line of the input (the one being parsed, or the recorded header of the unclosed
